@@ -13,6 +13,7 @@ def mc_corpus(ctx, programs, name="corpus", pieces=8):
     """TLC checks the specification's own encoder against its independent parser on (a slice of) the corpus."""
     import concurrent.futures as cf
     progs = [p for p in programs if p.get("fam") == "aml"]
+    progs += [{"tree": p["a"], "b": p["b"], "arities": []} for p in programs if p.get("fam") == "alt" and not p.get("summary")]
     if not progs:
         return
     pieces = max(1, min(pieces, len(progs)))
@@ -20,7 +21,7 @@ def mc_corpus(ctx, programs, name="corpus", pieces=8):
 
     def one(k):
         path = ctx.path(f"{name}.{k}.ndjson")
-        vlib.write_ndjson(path, [{"tree": p["tree"], "arities": p.get("arities", [])} for p in parts[k]])
+        vlib.write_ndjson(path, [dict({"tree": p["tree"], "arities": p.get("arities", [])}, **({"b": p["b"]} if "b" in p else {})) for p in parts[k]])
         res = vlib.model_check(ctx, "MC_AmlCorpus.cfg", "MC_AmlCorpus.tla", workers=1, env={"CORPUS": path}, timeout=3600)
         os.remove(path)
         return res
